@@ -49,6 +49,13 @@ CHECKS = {
          "each block must run exactly once per pass.",
          "Trusted: bit-level access analysis in vt/ir.py; net blocks are identified through genblk_writes. Variable indices are treated conservatively.",
          "DESIGN.md 6.C02", "E1 E2"),
+ "C07": ("model_checking",
+         "schedule enumeration: every ff-block permutation x comb linear extensions x pass groups on register-centred designs, reference tick semantics + in-tick probe",
+         "Register designs with 1..9 update_ff blocks (Bits, struct, nested struct, list and list-of-struct registers; registers spread over parent/child/grandchild; "
+         "registers read by ff blocks, comb blocks and through nets) are run under all pass groups, all k! ff orders (k<=4; rotations/reversals beyond), and all input "
+         "sequences of length 2 (3); every signal is compared with the reference after each tick and a probe between the ff blocks shows nothing changes before the flip.",
+         "Trusted: vt/irref.py tick semantics; schedule surgery on schedule_ff is compiled by the real PrepareSimPass.create_sim_tick.",
+         "DESIGN.md 6.C07", "E1 E2"),
 }
 
 NOT_YET = {}
